@@ -305,10 +305,13 @@ structure SectionOffset where
   length : Nat
   deriving Repr, Inhabited, DecidableEq
 
-/-- `FindSection(sos, name)`: (section, offset relative to sectionsStart) -/
+/-- Go `uint64` addition wraps -/
+def w64 (n : Nat) : Nat := n % 2 ^ 64
+
+/-- `FindSection(sos, name)`: (section, offset relative to sectionsStart); the running sum is a uint64 -/
 def findSection : List SectionOffset → Bytes → Nat → Option (SectionOffset × Nat)
   | [], _, _ => none
-  | so :: rest, name, off => if so.name = name then some (so, off) else findSection rest name (off + so.length)
+  | so :: rest, name, off => if so.name = name then some (so, off) else findSection rest name (w64 (off + so.length))
 
 /-- the pair loop of `decodeSectionLengthsCBOR` (`i += 2` until `n`) -/
 def decodeSectionPairs : Nat → Bytes → List SectionOffset → Option (List SectionOffset)
@@ -341,7 +344,7 @@ def indexUrl (url : BUrlFacts) (raw : Bytes) : Option Bytes :=
 
 /-- `makeRelativeToStream` (overflow-safe since fix F5) -/
 def makeRelative (respLen respOff offset length : Nat) : Option (Nat × Nat) :=
-  if length > respLen ∨ offset > respLen - length then none else some (respOff + offset, length)
+  if length > respLen ∨ offset > respLen - length then none else some (w64 (respOff + offset), length)
 
 /-- `count` (offset, length) pairs -/
 def decodeLocations (respLen respOff : Nat) (u : Bytes) : Nat → Bytes → List ReqEntry → Option (List ReqEntry × Bytes)
@@ -418,8 +421,8 @@ def parseIndex (url : BUrlFacts) (ver : BVer) (contents : Bytes) (sectionsStart 
     | none => none
     | some (respso, rel) =>
       match ver with
-      | .b1 => indexEntriesB1 url respso.length (sectionsStart + rel) n bs []
-      | .b2 => indexEntriesB2 url respso.length (sectionsStart + rel) n bs []
+      | .b1 => indexEntriesB1 url respso.length (w64 (sectionsStart + rel)) n bs []
+      | .b2 => indexEntriesB2 url respso.length (w64 (sectionsStart + rel)) n bs []
 
 /-- `parsePrimarySection` / `parseManifestSection` -/
 def parseUrlSection (url : BUrlFacts) (contents : Bytes) : Option Bytes :=
@@ -510,11 +513,11 @@ def sectionLoop (url : BUrlFacts) (parseOk : Bytes → Bool) (ver : BVer) (bs : 
     (sos : List SectionOffset) : List SectionOffset → Nat → Meta → Outcome Meta
   | [], _, m => .ok m
   | so :: rest, offset, m =>
-    if !knownSection so.name then sectionLoop url parseOk ver bs sectionsStart sos rest (offset + so.length) m
+    if !knownSection so.name then sectionLoop url parseOk ver bs sectionsStart sos rest (w64 (offset + so.length)) m
     else if so.name = nResponses then sectionLoop url parseOk ver bs sectionsStart sos rest offset m
     else if bs.length ≤ offset then .error
     else
-      let end_ := offset + so.length
+      let end_ := w64 (offset + so.length)
       if bs.length ≤ end_ then .error
       else if end_ < offset ∨ bs.length < end_ then .panic          -- bs[offset:end]
       else
@@ -598,7 +601,8 @@ def isStatus3 (s : Bytes) : Bool := s.length == 3 && s.all SH.isDigit
 
 /-- `loadResponse(req, bs)`; `.panic` = slice bounds violation of `bs[req.Offset : req.Offset+req.Length]` -/
 def loadResponse (req : ReqEntry) (bs : Bytes) : Outcome Resp :=
-  if bs.length < req.offset + req.length then .panic
+  let hi := w64 (req.offset + req.length)
+  if hi < req.offset ∨ bs.length < hi then .panic          -- bs[req.Offset : req.Offset+req.Length]
   else
     let r := (bs.drop req.offset).take req.length
     match r with
